@@ -96,13 +96,15 @@ CHECKS["C05"] = dict(level="model_checking", design_ref="DESIGN.md 5/C05",
          "sum(E_L*overlap)/sum(overlap). L2 (overlap(QR)=overlap(Q) prod diag R) is decided under C13.",
     note=_WF_NOTE + " QR itself (LAPACK) is a contract stub; series truncated at s^3.")
 CHECKS["C13"] = dict(level="model_checking", design_ref="DESIGN.md 5/C13",
-    technique="symbolic execution of the traced jaxpr with jnp.linalg.qr replaced by its contract (symbolic Q, upper-triangular R, A = QR) + z3 polynomial identities",
+    technique="symbolic execution of the traced jaxpr with jnp.linalg.qr replaced by its contract (symbolic Q, upper-triangular R, A = QR) + z3 polynomial identities; "
+              "path exploration of the real get_init_walkers on symbolic reals with z3 nonlinear real arithmetic per path",
     text="For every trial kind and both walker containers: overlap(A) = overlap(Q_out) x returned norm factor, E_L(A) = E_L(Q_out), "
          "force_bias(A) = force_bias(Q_out) for ALL Q (not assumed orthonormal), all invertible upper-triangular R and all Hamiltonians, "
          "through qr_vmap / qr_vmap_uhf and the propagators' orthonormalize_walkers / _orthogonalize_walkers; inside propagate_free "
          "the accumulated norm is multiplied by each step's factor from an ARBITRARY symbolic pre-state (inductive over steps); the rdm1 that "
-         "get_init_walkers diagonalises equals <a+_ps a_qs> of the single-determinant trial (rhf, uhf). get_init_walkers itself is "
-         "not applicable (eager NumPy/LAPACK eigenvector gauge and data-dependent Python branches) and is not claimed.",
+         "get_init_walkers diagonalises equals <a+_ps a_qs> of the single-determinant trial (rhf, uhf). get_init_walkers (restricted, closed shell, one "
+         "electron per spin, norb 2) is path-explored on symbolic unit orbitals under eigh/qr contracts: every returning path has |overlap| > 1e-3, "
+         "orthonormal identical walkers, otherwise ValueError; larger electron counts, the open-shell branch and LAPACK's eigenvectors are outside.",
     note=_WF_NOTE + " LAPACK's QR (orthonormality, phases) is not verified: contract stub.")
 CHECKS["C14"] = dict(level="model_checking", design_ref="DESIGN.md 5/C14",
     technique="symbolic execution of the traced jaxpr (transcendentals uninterpreted with congruence) + z3 term/polynomial equalities",
